@@ -8,7 +8,7 @@ from vlib import core, dom
 
 ID = "C19"
 GEN = ["water", "gas", "oil", "fluid"]
-PROPS = ["C19_facade.v"]
+PROPS = ["C19_facade.v", "C19_signatures.v"]
 
 
 def run(ctx):
